@@ -206,6 +206,10 @@ def gen_world(rng, f):
             r = rng.random()
             if rng.random() < f.get("p_rem", 0):
                 return ["rk", rng.randrange(3)]
+            if rng.random() < 0.1:
+                # one method wants a class object here: the position is then keyed with the finer
+                # "subtler type" for every call, plain numbers included
+                return ["t", rng.choice(names + ["object", "int"])]
             if r < 0.5:
                 vals = sorted(rng.sample(range(4), rng.randint(1, 2)))
                 return ["l", vals]
@@ -323,6 +327,10 @@ def gen_call(rng, spec, odd_shapes=True):
             fl = rng.choice(["cls", "int"])
         elif r < 0.09 and fl == "cls":
             fl = "type"  # a class object where instances are expected
+        elif r < 0.15 and fl == "int":
+            fl = "type"
+        elif r < 0.22 and fl == "type":
+            fl = "int"  # a plain value where class objects are expected (1, True and 1.0 are equal, not the same)
         args.append(gen_value(rng, spec, fl))
     c = {"args": args}
     if not meta.get("mixed") and args and n == meta["max_ar"] and rng.random() < 0.08 \
